@@ -7,7 +7,8 @@ RULE = ("generated projects (core/keys/text profiles) + checked-in projects comp
         "and every refetch query the selection tree of the operation text (parsed by the reference GraphQL parser) is "
         "compared with the normalization AST shipped with it: same multiset of (field, canonical arguments) and inline "
         "fragments per level, Linked vs Scalar agreeing with the presence of a subselection, concreteType non-null exactly "
-        "when the schema type of the field is an object type. Non-trivial: operation with >=1 linked field; distinct by "
+        "when the schema type of the field is an object type; plus the dynamic half: the real runtime normalizeData on generated "
+        "responses behind a recording Proxy must look up every key the response has and no other. Non-trivial: operation with >=1 linked field; distinct by "
         "operation text hash.")
 
 
@@ -16,11 +17,24 @@ def run(ctx):
     n = ctx.pick(80, 5000)
     results = e3.run_cases(ctx, cli, ["core", "keys", "text"], n, "c11", [("e3_oracles", "analyze_c11")])
     a = e3.aggregate(results, "e3_oracles.analyze_c11", "ops")
+    # dynamic half of the statement ("the runtime normalizes every field the server returns and never looks for a field
+    # the operation did not request"): the REAL normalizeData runs on generated conforming responses wrapped in a recording
+    # Proxy (node/runtime.mjs, pylib/rt_common.py); keys looked up vs keys present, per response object
+    import rt_common
+    rt_common.configure(ctx, ctx.pick(2, 3))
+    dres = e3.run_cases(ctx, cli, ["rt", "core"], ctx.pick(25, 1500), "c11d", [("rt_common", "analyze_c11_dynamic")])
+    dyn = e3.aggregate(dres, "rt_common.analyze_c11_dynamic", "distinct")
+    for v in dyn["violations"]:
+        if "(see C12)" in v["signature"]:
+            continue  # a key disagreement is C12's subject (and listed there)
+        v = dict(v, signature=v["signature"].replace("C11dyn/", "C11/dynamic/", 1))
+        a["violations"].append(v)
     cov = {"evaluations": len(results), "distinct_nontrivial": min(a["nontrivial"], a["distinct"]) if a["distinct"] else a["nontrivial"],
-           "rule": RULE, "samples": a["samples"] or [{"note": "no generated sample"}], "successful_compiles": a["ok"], "observed": a["stats"]}
+           "rule": RULE, "samples": a["samples"] or [{"note": "no generated sample"}], "successful_compiles": a["ok"], "observed": a["stats"],
+           "dynamic_half": dict(dyn["stats"], programs=len(dres))}
     return runner.finish(ctx, LEVEL, cov, a["violations"], assumptions=[
         "operation text is parsed by pylib/gqlref.py; the schema kind of a field's type comes from the project's schema files",
-        "the dynamic half of the statement (the runtime normalizes every returned field / looks up nothing else) is observed in C10/C12 runs",
+        "dynamic half: responses are generated from the operation text by pylib/rt_common.py; key disagreements between compiler and runtime are C12's subject",
     ])
 
 
